@@ -186,11 +186,13 @@ func AssertKnown(cond bool, msg string, findingID string, region bool) {
 	}
 }
 
-func Fail(msg string)             { Failures = append(Failures, msg) }
-func Reach(label string)          { Reached = append(Reached, label) }
-func Observe(label string, v interface{}) { Observed = append(Observed, fmt.Sprintf("%s=%v", label, v)) }
-func Unsupported(msg string)      {}
-func Concrete(s string) bool      { return true }
+func Fail(msg string)    { Failures = append(Failures, msg) }
+func Reach(label string) { Reached = append(Reached, label) }
+func Observe(label string, v interface{}) {
+	Observed = append(Observed, fmt.Sprintf("%s=%v", label, v))
+}
+func Unsupported(msg string) {}
+func Concrete(s string) bool { return true }
 
 // Run executes a harness natively and reports what happened.
 func Run(h func()) (failures []string, skipped string, panicked interface{}) {
